@@ -336,6 +336,27 @@ def stepOldRest (st : St) (ts : List String) : St × String :=
         else ("", s.2)
       ({ st with disk := d2 }, s!"{s.1}{txt} {showBytes (o5.content d2).1}")
     | _, _ => (st, "bad-op")
+  | ["xfo", k, v, api, b] => match parseBytes b with
+    | some bs =>
+      -- operations through an object after a FAILED open: File/TextFile(1a, READ) on a missing path (v = c), or an object
+      -- of 1b on which open(1a, READ) fails (v = o); then one lazily opening writer, size(), content()/text(), path()
+      if (k != "f" && k != "t") || (v != "c" && v != "o") then (st, "bad-op") else
+      let isT := k == "t"
+      if !(if isT then api == "w" || api == "a" || api == "p" || api == "s" else api == "p") then (st, "bad-op") else
+      let d0 := st.disk.set 0 none
+      let d0 := if v == "o" then d0.set 1 (some [112, 114, 101, 99, 105, 111, 117, 115]) else d0
+      let r := (Obj.new (if v == "o" then 1 else 0) isT).openAt d0 0 .read
+      let w : Bool × Disk × Obj :=
+        if isT then r.2.2.twrite r.2.1 (if api == "a" then .append else .write) bs else r.2.2.put r.2.1 bs
+      let d1 := w.2.1
+      let sz := w.2.2.size d1
+      let (dat, o2) : String × Obj :=
+        if isT then
+          let x := sz.2.text d1
+          ((match x.1 with | some t => showBytes t | none => "crash read-outside"), x.2)
+        else let x := sz.2.content d1; (showBytes x.1, x.2)
+      ({ st with disk := d1 }, s!"open={b01 r.1} w={b01 w.1} size={sz.1} data={dat} path={o2.path} raw0={rawStr d1 0} raw1={rawStr d1 1}")
+    | none => (st, "bad-op")
   | ["xput", api, b] => match parseBytes b with
     | some bs =>
       match applyApi (st.disk.set 0 none) api bs with
@@ -507,6 +528,17 @@ def stepOld (st0 : St) (ts : List String) : St × String :=
       let d := st.disk.set 0 (some bs)
       match (openH d 0 true .read).1 with
       | some h => ({ st with disk := d }, showLines (rlAll h))
+      | none => ({ st with disk := d }, "err open")
+    | none => (st, "bad-op")
+  | ["xrlw", b] => match parseBytes b with
+    | some bs =>
+      -- `while (tf.readLine(s)) ls << s;` on a freshly opened TextFile: the delivered strings, the string left by the
+      -- final `false` call, end()
+      let d := st.disk.set 0 (some bs)
+      match (openH d 0 true .read).1 with
+      | some h =>
+        let r := hreadWhile readLineChunk h
+        ({ st with disk := d }, s!"{showLines r.1.1} last={showBytes r.1.2} end={b01 (hend r.2)}")
       | none => ({ st with disk := d }, "err open")
     | none => (st, "bad-op")
   | ["xtext", b] => match parseBytes b with
